@@ -69,6 +69,14 @@ def run(op, n):
         cmd_cache_create.main(cache_create_subcommand="from_payloads", eb_size=16, output_file=out + ".bin",
                               input=["#fw," + os.path.join(W, "fw.bin"), "#second," + os.path.join(W, "fw_v1.bin")])
         return [b64(out + ".bin")]
+    if op == "cachenv":
+        cmd_cache_create.main(cache_create_subcommand="from_envelope", eb_size=8, input_envelope=os.path.join(W, "multi.suit"),
+                              output_envelope=out + "_e.suit", omit_payload_regex=None, dependency_regex="#dep.*", output_file=out + "_c.bin")
+        return [b64(out + "_c.bin"), b64(out + "_e.suit")]
+    if op == "cachenv2":
+        cmd_cache_create.main(cache_create_subcommand="from_envelope", eb_size=16, input_envelope=os.path.join(W, "multi.suit"),
+                              output_envelope=out + "_e.suit", omit_payload_regex="#p[01]", dependency_regex=None, output_file=out + "_c.bin")
+        return [b64(out + "_c.bin"), b64(out + "_e.suit")]
     if op == "sign":
         from pathlib import Path
         from suit_generator import cmd_sign
